@@ -22,6 +22,7 @@ EXPLANATION = (
   ' (DEP-round) ClockTime.from_seconds derives hours, minutes, seconds and milliseconds from one rounded value; (EXA-offset) SmpteTimeCode.to_temporal_offset returns Fraction(frames, rate) exactly;'
   ' (PURE-query) the query methods of the time code classes (to_*, get_*, is_*, printing and comparison) assign no attribute of the object, so frame counts and offsets never come from a memo that a later add_frames leaves stale;'
   ' (FIN-parse) SmpteTimeCode.parse hands the constructor the rate it was given for `:` labels and the drop-frame rate (rate x 1000/1001 unless the denominator is already 1001) for `;` labels, for every base rate of the grid;'
+  ' (LINT-k) no instance field declared with a numeric type is tested by truthiness (the number 0 would count as `not set`);'
 )
 RULE_TEXT = "EXA: one instance per truncation / time sink call site; FMT: one instance per printer branch x separator choice x sample vector"
 UNDECIDED = ["frames -> label -> frames identity", "label validity and drop-frame label skipping", "monotonicity of successive frame counts",
@@ -358,4 +359,5 @@ def run(ctx):
   nq = shape.check_pure_queries(ctx, [c for c in ix.classes.values() if c.module.name == "ttconv.time_code"])
   ctx.floor("PURE-query", "query methods of the time code classes", nq, 10)
   check_parse_rate(ctx)
+  common.check_numeric_fields(ctx, ["ttconv.time_code"])
   common.check_history_independence(ctx, ["ttconv.time_code", "ttconv.imsc.attributes", "ttconv.imsc.utils", "ttconv.srt.paragraph", "ttconv.vtt.cue"])
